@@ -243,7 +243,7 @@ pub fn check_after_deviation(scn: &Scenario) -> Result<CaseInfo, String> {
         .class_if(rejected >= 2, "two-or-more-rejected-calls"))
 }
 
-pub const RULE: &str = "walk = generated mocks with 2-8 next_call clauses over up to 4 ordered methods (implicit count, once, n_times(0..3), response chains inside a slot range) interleaved with unordered clauses of other methods; histories are model-guided random walks (p=0.8 the expected next call, else any call: wrong method / wrong argument / past the end / unordered method), stopped at the first deviation. prefix-x-next = for each generated configuration, every prefix of an accepted walk extended by every (mentioned method, argument 0..8) on a fresh mock. Non-trivial = >= 2 ordered methods, some ordered count >= 2, and the history has an unordered call between ordered ones or ends in a deviation; distinct = distinct scenario";
+pub const RULE: &str = "walk = generated mocks with 2-8 next_call clauses over up to 4 ordered methods (implicit count, once, n_times(0..3), response chains inside a slot range) interleaved with unordered clauses of other methods; histories are model-guided random walks (p=0.8 the expected next call, else any call: wrong method / wrong argument / past the end / unordered method), stopped at the first deviation. prefix-x-next = for each generated configuration, every prefix of an accepted walk extended by every (mentioned method, argument 0..8) on a fresh mock. Non-trivial = >= 2 ordered methods, some ordered count >= 2, and the history has an unordered call between ordered ones or ends in a deviation; distinct = distinct scenario. racing-* = every schedule of 2-3 threads x 1-2 calls (sampled up to 4x3) on an ordered sequence of several clauses (all slots accepting; slots rejecting part of the calls; mixed with an unordered method): positions handed out are those of the sequential run (C10's scheduler)";
 
 pub fn run(ctx: &Ctx) -> Verdict {
     let mut v = Verdict::new("exploration", RULE);
@@ -279,11 +279,22 @@ pub fn run(ctx: &Ctx) -> Verdict {
             i.class_if(k >= 9, "clause-tuple-arity>=9").class_if(k >= 13, "clause-tuple-arity>=13")
         })
     }));
+    // the global sequence under every interleaving: N racing ordered calls occupy N consecutive positions, also
+    // when slots reject part of the calls (C10's scheduler; clones, one shared handle, creator thread)
+    #[cfg(feature = "std")]
+    for mut s in super::c10::run_kinds(ctx, &[(2, 1), (2, 2), (3, 1)], &[super::c10::Kind::Ordered, super::c10::Kind::OrderedRejecting, super::c10::Kind::Mixed]) {
+        let renamed = format!("racing-{}", s.name);
+        s.rename(renamed);
+        v.subs.push(s);
+    }
     v.subs.extend(super::variant_reports(ctx, &["nostd-spin"]));
     v
 }
 
 pub fn replay(sub: &str, case: Value) -> Result<(), String> {
+    if sub.starts_with("racing") {
+        return super::c10::replay(sub, case);
+    }
     let scn: Scenario = serde_json::from_value(case).map_err(|e| format!("HARNESS: bad case: {e}"))?;
     if sub == "after-deviation" {
         check_after_deviation(&scn).map(|_| ())
